@@ -670,6 +670,12 @@ def run(ctx):
     import c07_legacy
     c07_legacy.run(ctx, exe, ytree, d)
 
+    # ---- signed zeros / infinite parts through parse_complex (finding DJ92)
+    signed_parts(ctx, exe, ytree, d)
+
+    # ---- frequency grids that collide at the fprecision in force (known finding DJ91)
+    collisions(ctx, exe, d)
+
     # ---- solve path
     solve_path(ctx, exe, ytree, d)
     ctx.extra["scenarios"] = n
@@ -777,6 +783,162 @@ def legacy(ctx, exe, ytree, d, violate_plain):
     else:
         violate_plain("compat-V2.vnacal does not load: %s" % (cr.lines[:1] if cr else None), {})
     ctx.extra["compat_V2_checked"] = ok
+
+
+def collisions(ctx, exe, d):
+    """Finding DJ91: grids whose consecutive frequencies are distinct as stored but get the same text (or texts that
+    read back not ascending) at the fprecision in force.  Generated: base 10^k (k = 3..10), spacings 1..4 units in the
+    (fprecision + 1)-th .. (fprecision + 3)-th digit, fprecision default / 1..12, 2..4 frequencies, every type now and then;
+    plus the same grids at a precision that separates them (controls: must round-trip).  For a colliding grid the
+    property fails when vnacal_save succeeds and vnacal_load refuses the saved file: reported with the signature of
+    known finding DJ91 (a save that fails, or a wider text that reloads, would both be fine: the repair is a design decision).
+    Anything else - a control that does not round-trip, a collision-free grid refused - is an ordinary violation."""
+    rng = ctx.rng
+    import c07_coq
+    fpd, dpd = c07_coq.DEFAULTS
+    cases = [(None, [10000000.0, 10000002.0, 10000004.0], "T8", 1, 1), (7, [10000000.0, 10000002.0, 10000004.0], "T8", 1, 1),
+             (8, [10000000.0, 10000002.0, 10000004.0], "T8", 1, 1), (1, [1.04e9, 1.05e9], "E12", 2, 1), (3, [1000.0, 1001.0], "U8", 2, 2)]
+    for _ in range(10 if ctx.tier == "quick" else 80):
+        fp = rng.choice([None, 1, 2, 3, 5, 6, 7, 9, 12])
+        efp = fpd if fp is None else fp
+        k = rng.randint(max(3, efp), 12)
+        step = rng.randint(1, 4) * 10.0 ** max(0, k - efp - rng.randint(0, 2))
+        base = rng.randint(1, 9) * 10.0 ** k
+        grid = [base + i * step for i in range(rng.randint(2, 4))]
+        t = rng.choice(L.TYPES)
+        mr, mc = (1, 1) if t != "E12" else (2, 1)
+        cases.append((fp, grid, t, mr, mc))
+        cases.append((17, grid, t, mr, mc))                      # control
+    lines = []
+    info = []
+    for k, (fp, grid, t, mr, mc) in enumerate(cases):
+        cal = gen_cal(rng, "g%d" % k, t, (mr, mc), F=len(grid), ideal=True)
+        cal["fvec"] = list(grid)
+        cal["props"] = "absent"
+        src = os.path.join(d, "col%d.vnacal" % k)
+        out = os.path.join(d, "col%d_out.vnacal" % k)
+        text = L.write_vnacal([cal], None, style="hex")
+        with open(src, "w") as f:
+            f.write(text)
+        sl = ["load 0 %s" % src] + (["setfp 0 %d" % fp] if fp is not None else []) + ["save 0 %s" % out, "load 1 %s" % out, "dump 1", "free 0", "free 1", "leak"]
+        lines += ["case %d" % k] + sl
+        efp = fpd if fp is None else fp
+        texts = [L.fmt_f(x, efp) for x in grid]
+        back = [L.parse_real(x) for x in texts]
+        collide = any(b <= a for a, b in zip(back, back[1:]))
+        info.append((fp, efp, grid, t, mr, mc, sl, text, texts, collide))
+    res = L.run_script(ctx, exe, "\n".join(lines) + "\n", len(cases))
+    ncoll = nknown = 0
+    for k, (fp, efp, grid, t, mr, mc, sl, text, texts, collide) in enumerate(info):
+        cr = res.get(k)
+        rep = {"type": t, "rows": mr, "columns": mc, "fprecision": efp, "frequencies": grid, "frequency_texts": texts, "script": sl,
+               "files": {"col%d.vnacal" % k: text}, "seed": ctx.seed}
+        if cr is None:
+            continue
+        if cr.crash:
+            sig = dict(cr.crash[2])
+            ctx.violation(sig, "C07 frequency grids: crash %s in %s (fprecision %d, f = %r)" % (sig.get("error"), sig.get("function"), efp, grid), dict(rep, stderr=cr.crash[1][-2000:]))
+            continue
+        ls = cr.lines
+        i = 0
+        while i < len(ls) and not ls[i].startswith("save"):
+            i += 1
+        saved = i < len(ls) and ls[i].startswith("save rc=0")
+        reloaded = saved and i + 1 < len(ls) and ls[i + 1].startswith("load ok")
+        if collide:
+            ncoll += 1
+            if saved and not reloaded:
+                nknown += 1
+                if nknown <= 2:
+                    ctx.violation({"kind": "roundtrip", "class": "consecutive calibration frequencies format identically at fprecision"},
+                                  "vnacal_save (rc 0) at fprecision %d writes f = %r as %r; vnacal_load refuses the saved file: %s"
+                                  % (efp, grid, texts, ls[i + 1] if i + 1 < len(ls) else "?"), rep)
+            ctx.count(("fgrid-collision", efp, len(grid), t))
+            continue
+        if not saved or not reloaded:
+            ctx.violation({"kind": "roundtrip", "class": "collision-free frequency grid does not round-trip"},
+                          "fprecision %d, f = %r (texts %r, strictly ascending): %s" % (efp, grid, texts, ls[i:i + 2]), rep)
+            continue
+        try:
+            st, _ = L.parse_dump(ls, i + 2)
+            got = st["slots"][0]["fvec"]
+        except (ValueError, IndexError, AssertionError, TypeError):
+            got = None
+        want = [L.parse_real(x) for x in texts]
+        if got is None or len(got) != len(want) or any(not L.same_bits(a, b) for a, b in zip(got, want)):
+            ctx.violation({"kind": "roundtrip", "class": "frequency vector after reload"},
+                          "fprecision %d: frequencies %r after the reload, the texts %r read as %r" % (efp, got, texts, want), rep)
+        else:
+            ctx.count(("fgrid-ok", efp, len(grid), t))
+            ctx.traces_validated += 1
+    ctx.extra["frequency_grids"] = {"cases": len(info), "colliding": ncoll, "saved_but_unloadable (DJ91)": nknown}
+
+
+def signed_parts(ctx, exe, ytree, d):
+    """Finding DJ92: numbers whose two parts must not be combined by arithmetic.  A T8 1x1 file written by hand with
+    the error terms (-0, 1.5), (2, +inf), (-0, -0), (-inf, 0) and z0 = (-0, 0), every accepted spelling of
+    parse_complex ("a bj", "bj", "a + j", "a - j", "-j"): vnacal_load must deliver exactly these bit patterns
+    (signbit of zeros, infinities; the real part must not become NaN), and a save at VNACAL_MAX_PRECISION + reload
+    must reproduce them (the property: bit-exact at VNACAL_MAX_PRECISION)."""
+    inf = float("inf")
+    want = [complex(-0.0, 1.5), complex(2.0, inf), complex(-0.0, -0.0), complex(-inf, 0.0)]
+    texts = ["-0x0p+0 +0x1.8p+0j", "+0x1p+1 +infj", "-0x0p+0 -0x0p+0j", "-inf +0x0p+0j"]
+    head = "#VNACal 1.0\n%YAML 1.1\n---\ncalibrations:\n- name: s\n  type: T8\n  rows: 1\n  columns: 1\n  frequencies: 1\n"
+    docs = [("two-part spelling", head + "  z0: -0x0p+0 +0x0p+0j\n  data:\n  - f: 1e9\n    ts: [%s]\n    ti: [%s]\n    tx: [%s]\n    tm: [%s]\n" % tuple(texts),
+             complex(-0.0, 0.0), want),
+            ("one-part spellings", head + "  z0: -0.0\n  data:\n  - f: 1e9\n    ts: [infj]\n    ti: [-0.0 + j]\n    tx: [-0.0 - j]\n    tm: [-j]\n",
+             complex(-0.0, 0.0), [complex(0.0, inf), complex(-0.0, 1.0), complex(-0.0, -1.0), complex(0.0, -1.0)])]
+    lines = []
+    for k, (lab, text, z0, terms) in enumerate(docs):
+        src = os.path.join(d, "sgn%d.vnacal" % k)
+        out = os.path.join(d, "sgn%d_out.vnacal" % k)
+        with open(src, "w") as f:
+            f.write(text)
+        lines += ["case %d" % k, "load 0 %s" % src, "dump 0", "setfp 0 %d" % L.MAXP, "setdp 0 %d" % L.MAXP, "save 0 %s" % out, "load 1 %s" % out,
+                  "dump 1", "free 0", "free 1", "leak"]
+    res = L.run_script(ctx, exe, "\n".join(lines) + "\n", len(docs))
+    nbad = 0
+
+    def bits(z):
+        return "(%s, %s)" % (float.hex(z.real), float.hex(z.imag))
+    for k, (lab, text, z0, terms) in enumerate(docs):
+        cr = res.get(k)
+        rep = {"document": lab, "file": text, "script": ["load 0 <file>", "dump 0", "setfp 0 1000", "setdp 0 1000", "save 0 <out>", "load 1 <out>", "dump 1"],
+               "fix": "fixes/DJ92_parse_complex_cmplx.diff"}
+        if cr is None:
+            continue
+        if cr.crash:
+            sig = dict(cr.crash[2])
+            ctx.violation(sig, "C07 signed zeros / infinities (%s): crash %s in %s" % (lab, sig.get("error"), sig.get("function")), dict(rep, stderr=cr.crash[1][-2000:]))
+            continue
+        ls = cr.lines
+        diffs = []
+        try:
+            if not ls[0].startswith("load ok"):
+                raise ValueError("the document does not load: %s" % ls[0])
+            st0, i = L.parse_dump(ls, 1)
+            j = i
+            while not ls[j].startswith("save"):
+                j += 1
+            for where, st in (("vnacal_load", st0),) + ((("save at VNACAL_MAX_PRECISION + vnacal_load", L.parse_dump(ls, j + 2)[0]),)
+                                                         if ls[j].startswith("save rc=0") and ls[j + 1].startswith("load ok") else ()):
+                c = st["slots"][0]
+                got = [c["z0"]] + [c["terms"][t][0] for t in range(4)]
+                for nm, g, w in zip(["z0", "ts[0]", "ti[0]", "tx[0]", "tm[0]"], got, [z0] + terms):
+                    if not (L.same_bits(g.real, w.real) and L.same_bits(g.imag, w.imag)):
+                        diffs.append("%s: %s is %s, the text denotes %s" % (where, nm, bits(g), bits(w)))
+            if not (ls[j].startswith("save rc=0") and ls[j + 1].startswith("load ok")):
+                diffs.append("save / reload at VNACAL_MAX_PRECISION failed: %s / %s" % (ls[j], ls[j + 1]))
+        except (ValueError, IndexError, AssertionError, TypeError) as e:
+            diffs.append("transcript: %r" % (e,))
+        if diffs:
+            nbad += 1
+            ctx.violation({"kind": "roundtrip", "class": "parse_complex combines the parts by arithmetic"},
+                          "C07 signed zeros / infinities (%s): %s" % (lab, diffs[0][:300]), dict(rep, differences=diffs[:10]))
+        else:
+            ctx.count(("signed-parts", lab))
+            ctx.traces_validated += 1
+    ctx.extra["signed_parts_documents_failing"] = nbad
 
 
 def solve_path(ctx, exe, ytree, d):
